@@ -111,7 +111,10 @@ def convert(case, data, out, setting, d, tag, earlier=()):
             conv.segy_convert(path, pout, 4, (4, 4, -1), reduce_iops=(case["reader"] == "reduced"), header_detection="strip")
             if get_hash(pout) != sha(sgy.read_source(path)["traces"]):
                 raise Violation("hash-not-sha1-of-source", "the survey converted first under this file name")
-        sgy.write_segy(path, data.reshape(-1, ns), cols, 4000, fmt=case["fmt"], grid=(il, xl))
+        # (after a prior survey of the same layout, half of the surveys carry an extended textual header: what was found
+        # out about the first file of that layout must not be applied to this one)
+        ext = 1 if (case.get("prior") is not None and case["prior"] % 2) else 0
+        sgy.write_segy(path, data.reshape(-1, ns), cols, 4000, fmt=case["fmt"], grid=(il, xl), ext_headers=ext)
         src = sgy.read_source(path)["traces"]
     conv.segy_convert(path, out, rate, bs, reduce_iops=(case["reader"] == "reduced" and case["kind"] != "2d"),
                       header_detection=case.get("mode", "strip"), earlier=earlier)
